@@ -64,6 +64,7 @@ def run(ctx):
     ctx.rule = RULE
     ctx.assumptions = ["adapters vp/ops_cfdp.py project objects by attribute reads only",
                        "TLC evaluates Cfdp.tla (header layout from CCSDS 727.0-B-5 5.1 written with div/mod)"]
+    ctx.symbolic_laws(['Law_CfdpFixed'])
     ctx.replay_vectors("MC_Codec", "MC_Codec.cfg", perform, "grid", classify, consts='CONSTANT Area = "cfdphdr"',
                        need_actions=("PickVector",))
     ctx.validate_events(events(ctx), "calls", classify)
